@@ -167,6 +167,17 @@ def run(case):
                     i = int(np.argmax(bad))
                     fails.append(f"{nm} at element {els[i]} (source element {src_els[i]}) is {g[i]}, the original has {w[i]}")
                     break
+        # the other spelling of the same request: the extra coords sliced directly, with the trailing whole axes left
+        # out of the item (cube[...] always hands over one entry per axis; a user need not)
+        if len(case["chain"]) == 1 and not fails and getattr(cube.extra_coords, "_lookup_tables", None):
+            py = list(C.to_py_index(case["chain"][0], npint=C.npint_of(case)))
+            if Ellipsis not in py:
+                while len(py) > 1 and isinstance(py[-1], slice) and py[-1] == slice(None):
+                    py.pop()
+                direct = cube.extra_coords[tuple(py) if len(py) > 1 else py[0]]
+                lut = lambda e: [(tuple(int(a) for a in (ax if isinstance(ax, tuple) else (ax,))), tuple(t.names or ())) for ax, t in e._lookup_tables]
+                if lut(direct) != lut(ec) or list(direct.keys() or []) != keys:
+                    fails.append(f"cube.extra_coords[{py}] holds {lut(direct)}, the extra coords of cube[{py}] hold {lut(ec)}")
         res["obs"] = {"keys": keys, "mapping": mapping, "shape": list(s.data.shape),
                       "lut_axes": [[int(a) for a in (ax if isinstance(ax, tuple) else (ax,))] for ax, _ in getattr(ec, "_lookup_tables", [])]}
         luts, id_names = lut_requests(case, cube)
